@@ -74,11 +74,16 @@ func backtrackFlagField(w *World) string {
 			if st, ok := in.(*ssa.Store); ok {
 				if fa, ok := st.Addr.(*ssa.FieldAddr); ok {
 					// the stored value is the captured bool parameter
-					for _, o := range w.Origins(st.Val, nil) {
-						if p, isP := o.(*ssa.Parameter); isP && p.Parent() == par {
-							if f := fieldOf(fa.X.Type(), fa.Field); f != nil {
-								name = f.Name()
-							}
+					os := w.Origins(st.Val, nil)
+					only := len(os) > 0
+					for _, o := range os {
+						if p, isP := o.(*ssa.Parameter); !isP || p.Parent() != par {
+							only = false
+						}
+					}
+					if only {
+						if f := fieldOf(fa.X.Type(), fa.Field); f != nil {
+							name = f.Name()
 						}
 					}
 				}
@@ -182,7 +187,7 @@ func c02FindRule(w *World, r *Report, ra *repoAnchors) {
 func c02BacktrackingChain(w *World, r *Report, ra *repoAnchors) {
 	ri := r.Rule("C02.2", 5, "whether a less specific expression is tried depends on the backtracking flag of the expression that failed, end to end")
 	flag := backtrackFlagField(w)
-	r.Ob(ri, "option-stores-flag", token.NoPos, flag != "", "the add option created from the bool argument must store it into a node field")
+	r.Ob(ri, "option-stores-flag", token.NoPos, flag != "", "the add option created from the bool argument must store exactly that argument into a node field (not a combination with the node's previous value: value-less nodes are preset to true)")
 	if flag == "" {
 		return
 	}
@@ -456,6 +461,7 @@ func checkC03(w *World, r *Report) {
 	c03RouteMatchers(w, r, pa, fa)
 	c03NodeConsistency(w, r)
 	c03Decode(w, r, pa)
+	c03MatchersPure(w, r)
 	c03Unnamed(w, r)
 }
 
@@ -839,6 +845,32 @@ func c03Decode(w *World, r *Report, pa *pipelineAnchors) {
 		if n == 0 {
 			r.Ob(ri, "path-params-matcher-found", token.NoPos, false, "no matcher with an encoded-slash setting found")
 		}
+	}
+}
+
+// c03MatchersPure: route matchers only read the keys / values they are handed; the same slices
+// are used for the captures exposed to the pipeline and for other candidates during backtracking.
+func c03MatchersPure(w *World, r *Report) {
+	ri := r.Rule("C03.4b", 4, "route matchers do not modify the captured keys and values they inspect")
+	rmI := w.Iface("internal/rules", "RouteMatcher")
+	if rmI == nil {
+		r.Undecided(ri, "RouteMatcher not found")
+		return
+	}
+	eff := newEff(w)
+	for _, t := range w.Implementors(rmI) {
+		fn := w.Method(t, "Matches")
+		if fn == nil || fn.Blocks == nil {
+			continue
+		}
+		r.Analysed(w.FnName(fn))
+		bad := ""
+		for _, pw := range eff.writes(fn) {
+			if pw.Param >= 2 {
+				bad = fmt.Sprintf("writes parameter %d (%s) at %s", pw.Param, pw.Path, w.Pos(pw.Pos))
+			}
+		}
+		r.Ob(ri, w.FnName(fn)+"|read-only-captures", fn.Pos(), bad == "", "the matcher "+bad+": the decoded value is then decoded a second time by the rule execution and seen by other candidates")
 	}
 }
 
